@@ -16,6 +16,10 @@ _output = 'output'
 
 __all__ = ['join', 'perdictable']
 
+def _with_defaults(tbl, defaults):
+    """every row of tbl receives the default whole: a list / tuple default is one value, not a column to be spread over the rows"""
+    return tbl(**{key: value if callable(value) else [value] * len(tbl) for key, value in defaults.items()})
+
 def _join_dictable_with_defaults(tbl_def1, tbl_def2):
     """
     performs a join while allowing for a default
@@ -52,9 +56,9 @@ def _join_dictable_with_defaults(tbl_def1, tbl_def2):
     else:
         d = d1 * d2
         if len(def1):
-            d += (d2 / d1)(**def1)
+            d += _with_defaults(d2 / d1, def1)
         if len(def2):
-            d += (d1 / d2)(**def2)
+            d += _with_defaults(d1 / d2, def2)
     defaults = {}
     defaults.update(def1)
     defaults.update(def2)
